@@ -1,0 +1,83 @@
+//go:build verif
+
+// Contracts for the verifier in /verif (comment-only; compiled only with -tags verif, adds no code).
+package reference
+
+// ---- C11: the origins at a position are exactly the origins of that file whose range contains it.
+//@ contract (reference.Origins).AtPos (ro, file, pos) (result, ok)
+//@   ensures [C11] ok == (len(result) > 0)
+//@   loop 1 iter [C11,name:an-origin-is-reported-exactly-when-its-range-holds-the-position] (len(matchingOrigins) == old(len(matchingOrigins)) + 1) == (origin.OriginRange().Filename == file && origin.OriginRange().ContainsPos(pos))
+//@   loop 1 iter [C11] len(matchingOrigins) == old(len(matchingOrigins)) || (len(matchingOrigins) == old(len(matchingOrigins)) + 1 && matchingOrigins[len(matchingOrigins)-1] == origin)
+//@   ensures [C11,name:result-is-the-accumulated-list] len(result) == len(matchingOrigins)
+
+// ---- C08/C11: the address under which a declaration is offered / resolved. The local (self.*) address is used
+// ---- only where self references are enabled and the position lies inside the block the name is local to;
+// ---- a declaration that has nothing but a local address is known by it.
+//@ contract (reference.Target).Address (r, ctx, pos) (result)
+//@   ensures [C08,C11,name:absolute-address-unless-local-applies] result == r.Addr || (result == r.LocalAddr && len(r.LocalAddr) > 0)
+//@   ensures [C08,C11,name:only-a-local-address] implies(len(r.LocalAddr) > 0 && len(r.Addr) == 0, result == r.LocalAddr)
+//@   ensures [C08,name:self-only-where-enabled-and-inside-its-block] implies(len(r.Addr) > 0 && result != r.Addr, schema.ActiveSelfRefsFromContext(ctx) && r.LocalAddr[0].String() == "self" && r.TargetableFromRangePtr != nil && r.TargetableFromRangePtr.ContainsPos(pos))
+//@   ensures [C08,name:self-preferred-inside-its-block] implies(len(r.LocalAddr) > 0 && r.LocalAddr[0].String() == "self" && schema.ActiveSelfRefsFromContext(ctx) && r.TargetableFromRangePtr != nil && r.TargetableFromRangePtr.ContainsPos(pos), result == r.LocalAddr)
+
+// ---- C11/C08: the declarations of a file are exactly the outermost targets whose range lies in that file
+// ---- (a target without a range is in no file).
+//@ contract (reference.Targets).OutermostInFile (refs, file) (result)
+//@   loop 1 iter [C11,name:a-target-is-listed-exactly-when-its-range-is-in-the-file] (len(targets) == old(len(targets)) + 1) == (target.RangePtr != nil && target.RangePtr.Filename == file)
+//@   loop 1 iter [C11] len(targets) == old(len(targets)) || (len(targets) == old(len(targets)) + 1 && targets[len(targets)-1].RangePtr == target.RangePtr && targets[len(targets)-1].Addr == target.Addr && targets[len(targets)-1].LocalAddr == target.LocalAddr)
+//@   loop 1 invariant [C11,claim] fresh(targets) && forall(j, 0, len(targets), targets[j].RangePtr != nil && targets[j].RangePtr.Filename == file)
+//@   ensures [C11,name:result-is-the-accumulated-list] len(result) == len(targets)
+//@   ensures [C11,name:every-listed-target-is-in-the-file] forall(j, 0, len(result), result[j].RangePtr != nil && result[j].RangePtr.Filename == file)
+
+// ---- C08: a declaration that does not fit itself is still offered when a declaration nested in it fits: the
+// ---- search answers yes exactly when some target of the list matches by its local or its absolute address,
+// ---- or has such a target below it; every target is asked with the very same reference, prefix and ranges.
+//@ contract (reference.Targets).containsMatch (targets, ctx, ref, prefix, outermostBodyRng, originRng) (ok)
+//@   assert before reference.localTargetMatches#1 : [C08] arg0 == ctx && arg1 == target && arg2 == ref && arg3 == prefix && arg4 == outermostBodyRng && arg5 == originRng
+//@   assert before reference.absTargetMatches#1 : [C08] arg0 == ctx && arg1 == target && arg2 == ref && arg3 == prefix && arg4 == outermostBodyRng && arg5 == originRng
+//@   assert before (reference.Targets).containsMatch#1 : [C08] arg0 == target.NestedTargets && arg1 == ctx && arg2 == ref && arg3 == prefix && arg4 == outermostBodyRng && arg5 == originRng
+//@   ghost lAsked after reference.localTargetMatches#1 : true
+//@   ghost lm after reference.localTargetMatches#1 : callresult
+//@   ghost aAsked after reference.absTargetMatches#1 : true
+//@   ghost am after reference.absTargetMatches#1 : callresult
+//@   ghost nAsked after (reference.Targets).containsMatch#1 : true
+//@   loop 1 iter [C08,name:passed-over-only-if-nothing-matches] lAsked && !lm && aAsked && !am
+//@   loop 1 iter [C08,name:nested-declarations-are-searched] implies(len(target.NestedTargets) > 0, nAsked && !match)
+//@   ensures [C08,name:yes-only-for-a-match] implies(ok, lm || am || nAsked)
+//@   ensures [C08,name:no-match-no-yes] implies(!ok, !lm && !am)
+//@   ensures [C08,name:a-nested-search-ends-the-scan-only-with-yes] implies(match || !match, ok && match)
+
+// ---- C08: the candidate walk. A declaration is handed to the callback exactly when it matches by its local or
+// ---- its absolute address (prefix, visibility, constraint or nested fit - see localTargetMatches /
+// ---- absTargetMatches); a declaration that does not match is not offered but the declarations nested in it are
+// ---- walked with the very same reference, prefix, ranges and callback.
+//@ contract (reference.Targets).MatchWalk (targets, ctx, ref, prefix, outermostBodyRng, originRng, f)
+//@   ghost lAsked after reference.localTargetMatches#1 : true
+//@   ghost lm after reference.localTargetMatches#1 : callresult
+//@   ghost am after reference.absTargetMatches#1 : callresult
+//@   ghost descended after (reference.Targets).MatchWalk#1 : true
+//@   assert before reference.localTargetMatches#1 : [C08] arg0 == ctx && arg1 == target && arg2 == ref && arg3 == prefix && arg4 == outermostBodyRng && arg5 == originRng
+//@   assert before reference.absTargetMatches#1 : [C08] arg0 == ctx && arg1 == target && arg2 == ref && arg3 == prefix && arg4 == outermostBodyRng && arg5 == originRng
+//@   assert before (reference.Targets).MatchWalk#1 : [C08] arg0 == target.NestedTargets && arg1 == ctx && arg2 == ref && arg3 == prefix && arg4 == outermostBodyRng && arg5 == originRng
+//@   loop 1 iter [C08,name:a-matching-declaration-is-offered-itself-not-its-parts] lAsked && implies(lm || am, !descended)
+//@   loop 1 iter [C08,name:nested-declarations-of-a-non-matching-one-are-walked] implies(!lm && !am, descended)
+
+// ---- C11: resolution looks at every declaration, nested ones at any depth: the deep walk descends into the
+// ---- nested targets of an element whenever there are any and the depth limit allows it (never limited for the
+// ---- infinite depth), one level deeper, and comes back to the level it started from.
+//@ contract (reference.refTargetDeepWalker).walk (w, refTargets)
+//@   ghost descended after (reference.refTargetDeepWalker).walk#1 : true
+//@   assert before (reference.refTargetDeepWalker).walk#1 : [C11,name:into-the-nested-targets-of-this-element] arg1 == ref.NestedTargets && len(ref.NestedTargets) > 0
+//@   assert before (reference.refTargetDeepWalker).walk#1 : [C11,name:within-the-depth-limit-one-level-deeper] arg0.Depth == w.Depth && (arg0.Depth == InfiniteDepth || arg0.Depth >= arg0.currentDepth)
+//@   loop 1 iter [C11,name:nested-targets-are-always-walked-without-a-depth-limit] implies(len(ref.NestedTargets) > 0 && w.Depth == InfiniteDepth, descended)
+//@   loop 1 iter [C11,name:scan-goes-on-unless-told-to-stop] err != stopWalking
+
+// ---- C11: the declarations an origin resolves to are the targets - at any depth - that match it; every
+// ---- target is asked (the visitor never stops the walk) and recorded exactly when it matches.
+//@ contract (reference.Targets).Match (refs, origin) (result, ok)
+//@   ensures [C11] ok == (len(result) > 0)
+//@   ensures [C11,name:result-is-the-accumulated-list] len(result) == len(matchingReferences)
+//@   assert before (reference.Targets).deepWalk#1 : [C11,name:nested-declarations-at-any-depth] arg0 == refs && arg2 == InfiniteDepth
+//@ contract (reference.Targets).Match$1 (ref) (err)
+//@   ensures [C11,name:the-walk-is-never-stopped] err == nil
+//@   ensures [C11,name:recorded-exactly-when-it-matches] (len(matchingReferences) == old(len(matchingReferences)) + 1) == ref.Matches(origin)
+//@   ensures [C11] len(matchingReferences) == old(len(matchingReferences)) || (len(matchingReferences) == old(len(matchingReferences)) + 1 && matchingReferences[len(matchingReferences)-1].Addr == ref.Addr && matchingReferences[len(matchingReferences)-1].RangePtr == ref.RangePtr)
